@@ -131,8 +131,11 @@ def main(run):
         "coap_gnutls.c; tied by the extracted acceptor on every observed session trace",
     ]
     run.assumptions = [
-        "TLS over TCP is not exercised by the tie (see level_note); the datagram gate is",
-        "PSK only (no certificates); GnuTLS " + "3.x as installed",
+        "GnuTLS's contract: gnutls_handshake returns success only if both ends presented the same key "
+        "(hypothesis of the credential theorems; monitored on the credential matrix on every run)",
+        "TLS over TCP is not modelled: it is checked by an implementation-only oracle on real loopback sockets",
+        "PSK only (no certificates); the GnuTLS version installed in the image",
+        "application callbacks are table look-ups (identity -> key, hint -> identity/key, SNI -> hint/key)",
     ]
     run.prove()
     model = vlib.build_model()
@@ -211,7 +214,7 @@ def main(run):
 
     # 2b. TLS over TCP: real loopback sockets, real GnuTLS, oracle on the implementation alone
     tdrv = vlib.build_driver("h_tls_tcp", ["h_tls_tcp.c"], extra=["-D_GNU_SOURCE"],
-                             wraps=["coap_socket_write", "coap_socket_read", "gnutls_handshake"])
+                             wraps=["coap_socket_write", "gnutls_handshake"])
     tcases = gen_tls.gen_tcp_cases(tie.rng_for(run, "c19tcp"), run.tier)
     tlines = [gen_tls.tcp_line(c) for c in tcases]
     touts, tcr = vlib.run_lines_robust(tdrv, tlines, timeout=900)
